@@ -87,7 +87,7 @@ def _entry_paths(ctx, base):
                       f"`{norm(enclosing_stmt(node))[:80]}` stores {sorted(raw) or 'a value'} that did not "
                       f"pass through _verify_individual/_verify_iterable (result discarded or never called)",
                       key=f"SINK|{m.qualname}|{what}", where=common.loc(m, node))
-    ctx.floor('_elements entry sites', n, 7)
+    ctx.floor('_elements entry sites', n, 4)
 
 
 def _only_inside_verify(m, expr, p):
@@ -351,4 +351,4 @@ def _mro_calls(ctx):
                     ctx.check(ok, 'EXC', f"{m.qualname}: {c.func.value.id}.{name}() resolves",
                               detail_bad=f"`{norm(c)[:60]}`: no method `{name}` on the container classes (AttributeError)",
                               key=f"EXC|{m.qualname}|{name}", where=common.loc(m, c))
-    ctx.floor('container method calls resolved', n, 30)
+    ctx.floor('container method calls resolved', n, 18)
